@@ -17,7 +17,12 @@ Four correspondence streams, each run on the REAL classes (`BS`, `PS`, `WP`, `HW
 * expr — parameters bound by name and by arithmetic expressions (+ - * / ** neg, nesting <= 3) to
   component slots, values changed repeatedly (accepted, wrapped and rejected calls); after every call the
   slot values are compared with the model's exact evaluation at the live values and the matrices with the
-  model evaluated exactly on the doubles `(cos x, sin x)` the implementation holds.
+  model evaluated exactly on the doubles `(cos x, sin x)` the implementation holds.  Numeric operands are
+  short rationals and "long" numbers (17-digit floats such as pi and 1/3, floats printed in exponent
+  notation, integral floats, integers >= 1e6): the expression's text is parsed back by sympy, so the operand
+  the model computes with is the exact value of the double handed to the operator.  A deterministic sweep
+  puts every operator form on every long operand; real / negative exponents (`p**2.5`, `p**-1`) are outside
+  the model's language and judged by the direct oracle alone.
 
 Direct oracles (independent of the Lean driver) used to classify a disagreement: the documentation's
 formulas written in numpy/cmath, `lo <= stored <= hi and stored ≡ requested (mod span)`, `U e_k = e_{l[k]}`.
@@ -340,9 +345,65 @@ def ast_depth(a):
     return 1 + max(ast_depth(a["a"]), ast_depth(a["b"]) if "b" in a else 0)
 
 
-def const_py(q):
-    q = Fraction(q)
+def const_py(node):
+    """the Python number handed to the overloaded operator: `{"c": q}` is an int when q is integral and the
+    double nearest to q otherwise; `{"c": q, "f": 1}` is always a float (q is then the exact dyadic value of
+    that double, so the model computes with exactly the operand the code was given)"""
+    q = Fraction(node["c"] if isinstance(node, dict) else node)
+    if isinstance(node, dict) and node.get("f"):
+        return float(q)
     return int(q) if q.denominator == 1 else float(q)
+
+
+def const_node(k):
+    return {"c": core.rat(k), "f": 1} if isinstance(k, float) else {"c": str(int(k))}
+
+
+def is_long(k):
+    """more than 6 significant digits (a `%g` rendering does not give the number back)"""
+    return float(f"{k:g}") != k
+
+
+def has_powf(a):
+    if "v" in a or "c" in a:
+        return False
+    return a["op"] == "powf" or has_powf(a["a"]) or ("b" in a and has_powf(a["b"]))
+
+
+def lean_ast(a):
+    """the model's expression language has natural exponents only: a slot whose expression contains a
+    real / negative exponent is judged by the direct oracle alone (the model is sent a placeholder)"""
+    return {"v": sorted(ast_vars(a))[0]} if has_powf(a) else a
+
+
+def ast_str(a):
+    """the expression as the user writes it in Python"""
+    if "v" in a:
+        return a["v"]
+    if "c" in a:
+        return repr(const_py(a))
+    if a["op"] == "neg":
+        return f"-({ast_str(a['a'])})"
+    if a["op"] == "pow":
+        return f"({ast_str(a['a'])})**{a['n']}"
+    if a["op"] == "powf":
+        return f"({ast_str(a['a'])})**{const_py({'c': a['x'], 'f': a.get('f')})!r}"
+    return f"({ast_str(a['a'])} {dict(add='+', sub='-', mul='*', div='/')[a['op']]} {ast_str(a['b'])})"
+
+
+def ast_operands(a, depth=0):
+    """(operator form, Python operand) of every numeric operand: mul/add/sub/div = number on the right,
+    rmul/radd/rsub = number on the left, pow = the exponent"""
+    if "v" in a or "c" in a:
+        return
+    if a["op"] == "powf":
+        yield "pow", const_py({"c": a["x"], "f": a.get("f")})
+    for sub in ("a", "b"):
+        if sub in a:
+            if "c" in a[sub]:
+                yield (a["op"] if sub == "b" else "r" + a["op"]), const_py(a[sub])
+            else:
+                yield from ast_operands(a[sub])
 
 
 def build_expr(a, P, memo=None):
@@ -354,13 +415,15 @@ def build_expr(a, P, memo=None):
     if "v" in a:
         return P[a["v"]]
     if "c" in a:
-        return const_py(a["c"])
+        return const_py(a)
     x = build_expr(a["a"], P, memo)
     op = a["op"]
     if op == "neg":
         r = -x
     elif op == "pow":
         r = x ** a["n"]
+    elif op == "powf":
+        r = x ** const_py({"c": a["x"], "f": a.get("f")})
     else:
         y = build_expr(a["b"], P, memo)
         if op == "add":
@@ -392,6 +455,11 @@ def eval_ast(a, env):
         return -x
     if op == "pow":
         return x ** a["n"]
+    if op == "powf":        # real exponent: defined here for a positive base only (float arithmetic)
+        xf, ex = float(x), float(Fraction(a["x"]))
+        if not (xf > 0) or abs(math.log(xf) * ex) > 600:
+            return None
+        return xf ** ex
     y = eval_ast(a["b"], env)
     if y is None:
         return None
@@ -420,6 +488,9 @@ def ast_scale(a, env):
         return sx, okx
     if op == "pow":
         return sx ** a["n"], okx
+    if op == "powf":
+        v = eval_ast(a, env)
+        return (abs(v) if v is not None else 0.0), okx and v is not None
     sy, oky = ast_scale(a["b"], env)
     ok = okx and oky
     if op in ("add", "sub"):
@@ -605,6 +676,58 @@ def gen_bad_perm(rng):
 
 
 CONSTS = ["1", "2", "3", "-1", "1/2", "1/4", "3/2", "5", "-2", "1/10", "3/10"]
+# numeric operands that need many significant digits / an exponent notation / are integral floats or large ints
+LONG_POOL = [PI, -math.e, 1 / 3, TWO_PI / 7, 0.123456789, 0.1 + 0.2, 1234567.25, 2 ** 0.5, 1.2345678912345e-05,
+             123456789.125, 2.5000001e-3, 1e16 + 2, 33554433.0, -0.7071067811865476, 2.0, 1e-7,
+             12345678, 1000003, -7654321, 2 ** 31 + 1, 123456789]
+POW_POOL = [0.5, 2.5, 1.2345678, -1, -2, 3.3333333333333335, 0.123456789, 2]
+
+
+def long_const(rng):
+    r = rng.random()
+    if r < 0.3:
+        k = rng.choice(LONG_POOL)
+    elif r < 0.6:
+        k = rng.uniform(-10, 10)
+    elif r < 0.8:
+        k = rng.choice([-1, 1]) * rng.uniform(1, 10) * 10.0 ** rng.randint(-5, 6)
+    else:
+        k = rng.choice([-1, 1]) * rng.randint(10 ** 6, 10 ** 9)
+    return const_node(k)
+
+
+def gen_const(rng):
+    return {"c": rng.choice(CONSTS)} if rng.random() < 0.6 else long_const(rng)
+
+
+def operand_sweep_cases():
+    """every operator form of `Parameter` arithmetic with a numeric operand (p*k, k*p, p+k, k+p, p-k, k-p,
+    p/k, p**x) on every operand of LONG_POOL / POW_POOL, bound to a component slot, the parameter set
+    three times (deterministic, independent of the seed)"""
+    targets = [("PS", None, "phi"), ("BS", "Rx", "theta"), ("PR", None, "delta"), ("BS", "H", "phi_tr"),
+               ("BS", "Ry", "theta")]
+    forms = [("mul", False), ("mul", True), ("add", False), ("add", True), ("sub", False), ("sub", True),
+             ("div", False)]
+    out = []
+    i = 0
+
+    def case(ast, hist):
+        nonlocal i
+        kind, conv, slot = targets[i % len(targets)]
+        i += 1
+        slots = {slot: ast}
+        return {"params": [{"name": "p", "lo": None, "hi": None, "periodic": False}],
+                "comps": [{"kind": kind, "conv": conv, "slots": slots, "how": "ctor"}],
+                "hist": [["p", v] for v in hist], "tag": "operand-sweep"}
+
+    for k in LONG_POOL:
+        for op, left in forms:
+            c, v = const_node(k), {"v": "p"}
+            out.append(case({"op": op, "a": c if left else v, "b": v if left else c}, [0.37, -1.9, 25.0]))
+    for x in POW_POOL:
+        node = const_node(x)
+        out.append(case({"op": "powf", "a": {"v": "p"}, "x": node["c"], "f": node.get("f", 0)}, [0.37, 2.5, 25.0]))
+    return out
 
 
 def gen_ast(rng, names, depth):
@@ -619,10 +742,9 @@ def gen_ast(rng, names, depth):
         return {"op": "pow", "a": a, "n": rng.choice([1, 2, 2, 3])}
     r = rng.random()
     if r < 0.35:        # constant on the right
-        c = rng.choice(CONSTS)
-        return {"op": op, "a": a, "b": {"c": c}}
+        return {"op": op, "a": a, "b": gen_const(rng)}
     if r < 0.5 and op != "div":        # constant on the left (radd / rsub / rmul)
-        return {"op": op, "a": {"c": rng.choice(CONSTS)}, "b": a}
+        return {"op": op, "a": gen_const(rng), "b": a}
     return {"op": op, "a": a, "b": gen_ast(rng, names, depth - 1)}
 
 
@@ -637,12 +759,14 @@ def sympy_names(ast):
         if "v" in a:
             return sp.Symbol(a["v"])
         if "c" in a:
-            return sp.S(str(const_py(a["c"])))
+            return sp.S(str(const_py(a)))
         x = go(a["a"])
         if a["op"] == "neg":
             e = -x
         elif a["op"] == "pow":
             e = x ** a["n"]
+        elif a["op"] == "powf":
+            e = x ** sp.S(str(const_py({"c": a["x"], "f": a.get("f")})))
         else:
             y = go(a["b"])
             e = {"add": lambda: x + y, "sub": lambda: x - y, "mul": lambda: x * y, "div": lambda: x / y}[a["op"]]()
@@ -901,7 +1025,7 @@ def expr_lean_reqs(case, obs):
     for cs in case["comps"]:
         for s, _, _ in SLOTS[cs["kind"]]:
             if s in cs["slots"]:
-                slots.append(cs["slots"][s])
+                slots.append(lean_ast(cs["slots"][s]))
     reqs = [{"op": "expr", "params": params, "slots": slots, "hist": [[n, core.rat(v)] for n, v in case["hist"]]}]
     index = []
     for si, snp in enumerate(obs.get("snaps", [])):
@@ -977,6 +1101,25 @@ def judge_expr(case, obs, reps, index):
             want = mv[len(names) + j]
             got = snp["comps"][ci]["slots"][s]
             vars_defined = all(env[x] is not None for x in ast_vars(ast))
+            if has_powf(ast) and not vars_defined:
+                if isinstance(got, float):
+                    fails.append(("violation", "expr-stale-value",
+                                  f"{when}: slot {s} = {got!r} although a sub-parameter has no value"))
+                continue
+            if has_powf(ast):
+                # real / negative exponent: outside the model's language, direct oracle only (Python's float
+                # arithmetic at the live values, positive bases only)
+                mine = eval_ast(ast, {k: v for k, v in fenv.items() if v is not None})
+                if mine is None or not math.isfinite(mine):
+                    continue
+                tol = 1e-9 * (1 + abs(mine))
+                if not isinstance(got, float):
+                    fails.append(("violation", "expr-not-evaluated", f"{when}: slot {s} gives {got}, expected {mine!r}"))
+                elif abs(got - mine) > tol:
+                    fails.append(("violation", "expr-live-value",
+                                  f"{when}: slot {s} bound to {ast_str(ast)} evaluates to {got!r}; at the current "
+                                  f"values {fenv} it is {mine!r}"))
+                continue
             if want is None:
                 if vars_defined:
                     continue        # division by zero: outside the property, not compared
@@ -996,13 +1139,15 @@ def judge_expr(case, obs, reps, index):
                 mine = eval_ast(ast, {k: v for k, v in fenv.items() if v is not None})
                 direct_bad = mine is None or abs(got - mine) > tol
                 fails.append(("violation" if direct_bad else "broken", "expr-live-value",
-                              f"{when}: slot {s} bound to {json.dumps(ast)} evaluates to {got!r}; at the current "
+                              f"{when}: slot {s} bound to {ast_str(ast)} evaluates to {got!r}; at the current "
                               f"values {fenv} it is {w!r}"))
         # matrices
         for ci, (cs, d) in enumerate(zip(case["comps"], snp["comps"])):
             label = cs["kind"] + ("." + cs["conv"] if cs["conv"] else "")
             vals = d["slots"]
             all_def = all(env[x] is not None for ast in cs["slots"].values() for x in ast_vars(ast))
+            if all_def and any(has_powf(ast) and eval_ast(ast, dict(fenv)) is None for ast in cs["slots"].values()):
+                continue        # a real power of a non-positive base: not a real angle, outside the property
             if (si, ci) not in mat_rep:
                 if all_def and all(mv[len(names) + j] is not None for j, (c2, _) in enumerate(slot_keys) if c2 == ci):
                     fails.append(("violation", "expr-not-evaluated",
@@ -1017,16 +1162,24 @@ def judge_expr(case, obs, reps, index):
                 continue
             model = core.unmat(mr["U"])
             doc = doc_matrix(cs["kind"], cs["conv"], vals)
+            smax = max([float(ast_scale(ast, env)[0]) for ast in cs["slots"].values()] + [0.0])
+            vmax = max(abs(x) for x in vals.values())
             for key, which in (("num", "numeric"), ("sym", "symbolic")):
                 got = d[key]
                 if isinstance(got, str):
                     fails.append(("violation", f"expr-matrix-raises:{which}",
                                   f"{when}: {label}.compute_unitary ({which}) gives {got} with slots {vals}"))
                     continue
-                tolm = 1e-9 if key == "num" else 1e-8
+                # numeric: the model is evaluated on the very doubles (cos, sin) of the slot values the code
+                # holds, whatever their size.  symbolic: sympy evaluates the expression again from the
+                # sub-parameters at higher precision, while the slot value is a double with rounding error
+                # <= ~1e-16*S (S = the expression's absolute scale): the angle itself is only known to that
+                # BS numeric adds the angles of an entry as doubles before taking cos/sin (the model multiplies
+                # exact phases): rounding <= ~3e-16 * the largest |slot value|, visible for angles >= 1e6
+                tolm = 1e-9 + 1e-15 * vmax if key == "num" else 1e-8 + 2e-15 * max(smax, vmax)
                 if not core.mat_close(got, model, tolm):
                     dd = core.mat_maxdiff(got, model)
-                    bad = not core.mat_close(got, doc, 1e-7)
+                    bad = not core.mat_close(got, doc, max(1e-7, 10 * tolm))
                     fails.append(("violation" if bad else "broken",
                                   f"expr-matrix:{label}:{which}" if bad else f"model-vs-code:{label}:{which}",
                                   f"{when}: the {which} matrix of {label} does not reflect the current slot values "
@@ -1222,6 +1375,17 @@ def record_case(chk, stream, case, obs):
                 chk.branch("expr-by-name" if "v" in a else "expr-by-expression")
         if depth >= 2:
             chk.branch("expr-nested")
+        for cs in case["comps"]:
+            for a in cs["slots"].values():
+                for form, k in ast_operands(a):
+                    if is_long(k):
+                        chk.branch("long-operand:" + form)
+                        if ast_depth(a) >= 2:
+                            chk.branch("long-operand-nested")
+                    chk.count("operand_kind", ("float" if isinstance(k, float) else "int") + (
+                        ">6digits" if is_long(k) else "<=6digits"))
+        if case.get("tag") == "operand-sweep":
+            chk.branch("operand-sweep")
         if any(a != "ok" for a in obs.get("acc", [])):
             chk.branch("expr-rejected-set")
         if obs.get("snaps") and any(v is None for v in obs["snaps"][0]["params"].values()):
@@ -1296,7 +1460,9 @@ def setup(chk):
                              "fixedP", "preset", "no-wrap", "wrap-above", "wrap-below", "far-out", "exact-multiple",
                              "symbolic-free", "U", "definition", "nonperiodic-raise", "onesided-raise",
                              "perm-exhaustive", "perm-random", "perm-rejected", "expr-by-name", "expr-by-expression",
-                             "expr-nested", "expr-rejected-set", "expr-undefined", "expr-value-changed-again"]
+                             "expr-nested", "expr-rejected-set", "expr-undefined", "expr-value-changed-again",
+                             "operand-sweep", "long-operand-nested"] + [
+                                 "long-operand:" + f for f in ("mul", "rmul", "add", "radd", "sub", "rsub", "div", "pow")]
 
 
 def run(chk: core.Check):
@@ -1335,11 +1501,14 @@ def run(chk: core.Check):
         for i in range(chk.pick(200, 4000)):
             mats.append(gen_matrix_case(rng, deep=(i % 8 == 0)))
         process(chk, pool, "matrix", mats, seen)
-        # expressions
+        # expressions: every operator form on every long numeric operand (deterministic), then random
+        process(chk, pool, "expr", operand_sweep_cases(), seen)
         process(chk, pool, "expr", [gen_expr_case(rng) for _ in range(chk.pick(250, 4000))], seen)
     chk.exhaustive = False
     chk.extra["exhaustive_parts"] = ["every bound + k*span, |k| <= 100, of the three declared intervals",
-                                     "every permutation of <= 5 modes"]
+                                     "every permutation of <= 5 modes",
+                                     "every operator form (p*k, k*p, p+k, k+p, p-k, k-p, p/k) on each of the "
+                                     f"{len(LONG_POOL)} listed long operands, p**x on {len(POW_POOL)} exponents"]
 
 
 def replay(chk, data):
